@@ -34,7 +34,7 @@ def run_prov(d, sf_file, name, extra=(), alarm=None, timeout=120):
     cwd = os.getcwd()
     try:
         os.chdir(d)
-        with R.case_tmp(d), contextlib.redirect_stdout(out), (alarm(timeout) if alarm else contextlib.nullcontext()):
+        with R.no_gc(), R.case_tmp(d), contextlib.redirect_stdout(out), (alarm(timeout) if alarm else contextlib.nullcontext()):
             rc = streamflow.main.main(["prov", name, "--file", sf_file, "--outdir", os.path.join(d, "prov"),
                                        "--name", "crate.zip", *extra])
         return rc, out.getvalue(), "\n".join(cap.lines)[:4000]
